@@ -1,5 +1,5 @@
 (* Entry points of the executable model used by the correspondence check (extracted). *)
-From RP Require Import Base Stream Target Socks Http Frames Frag MiluSyntax MiluParser MiluDoc MiluEval Dispatch MiluSound MiluWf Reload Lb Callbacks RtLeaf MiluRoundtrip Idle Config Registry Auth.
+From RP Require Import Base Stream Target Socks Http Frames Frag MiluSyntax MiluParser MiluDoc MiluEval Dispatch MiluSound MiluWf MiluSoundLet Reload Lb Callbacks RtLeaf MiluRoundtrip Idle Config Registry Auth.
 From RP.Gen Require Gen_ladder.
 
 Definition HFUEL : nat := 4000.   (* header lines per HTTP head in generated cases are far fewer *)
@@ -77,3 +77,6 @@ Definition x_lifecycle_ok := lifecycle_ok.
 Definition x_select_method := select_method.
 Definition x_auth_check (required : bool) (users : list (bytes * bytes)) (k : option (bytes * bytes)) : bool :=
   fst (check (mk_auth required users false 0) (fun _ _ => false) [] 0 k).
+
+(* the let fragment of the soundness theorem (C08) *)
+Definition x_wf_slb := wf_slb.
